@@ -76,15 +76,75 @@ func tokArg(b []byte) string { return "t:" + escapeTok(b) }
 
 // ---------------------------------------------------------------- the seven JSON-adapted types
 
+type unmarshalFn func([]byte, interface{}) error
+type marshalFn func(interface{}) ([]byte, error)
+
+// the JSON libraries a token / value is sent through besides the direct method call: encoding/json and jsoniter in its
+// two stock configurations, each with the value as a struct field and as the top-level value
+type jsonLib struct {
+	name      string
+	jsoniter  bool
+	unmarshal unmarshalFn
+	marshal   marshalFn
+}
+
+var jsonLibs = []jsonLib{
+	{"encoding/json", false, json.Unmarshal, json.Marshal},
+	{"jsoniter.ConfigCompatibleWithStandardLibrary", true, jsoniter.ConfigCompatibleWithStandardLibrary.Unmarshal, jsoniter.ConfigCompatibleWithStandardLibrary.Marshal},
+	{"jsoniter.ConfigDefault", true, jsoniter.ConfigDefault.Unmarshal, jsoniter.ConfigDefault.Marshal},
+}
+
 type jsType struct {
 	name   string // op prefix
 	goName string // for monitor keys
 	// decode b through the type's UnmarshalJSON; returns the canonical value text
 	direct func(b []byte) (string, error)
 	// the same through a JSON library: doc is {"V":<tok>}
-	viaLib func(unmarshal func([]byte, interface{}) error, doc []byte) (string, error)
-	// marshal the value given as text; direct and through json.Marshal of a struct
-	marshal func(arg string) (direct []byte, lib []byte, ok bool)
+	viaLib func(unmarshal unmarshalFn, doc []byte) (string, error)
+	// … and with the token as the whole document
+	viaTop func(unmarshal unmarshalFn, tok []byte) (string, error)
+	// marshal the value given as text: directly, and through a library as a struct field ({"V":…} stripped) and top-level
+	marshal func(arg string) (direct []byte, ok bool)
+	libEnc  func(m marshalFn, arg string) (field []byte, top []byte)
+}
+
+// mkType builds the entry of one wrapper type T from its value printer and its argument parser.
+func mkType[T any](name, goName string, show func(T) string, parse func(string) (T, bool), decoded func(T, []byte)) jsType {
+	return jsType{name: name, goName: goName,
+		direct: func(b []byte) (string, error) {
+			var v T
+			err := any(&v).(json.Unmarshaler).UnmarshalJSON(b)
+			if err == nil && decoded != nil {
+				decoded(v, b)
+			}
+			return show(v), err
+		},
+		viaLib: func(um unmarshalFn, doc []byte) (string, error) {
+			var s struct{ V T }
+			err := um(doc, &s)
+			return show(s.V), err
+		},
+		viaTop: func(um unmarshalFn, tok []byte) (string, error) {
+			var v T
+			err := um(tok, &v)
+			return show(v), err
+		},
+		marshal: func(a string) ([]byte, bool) {
+			x, ok := parse(a)
+			if !ok {
+				return nil, false
+			}
+			d, _ := any(x).(json.Marshaler).MarshalJSON()
+			return d, true
+		},
+		libEnc: func(m marshalFn, a string) ([]byte, []byte) {
+			x, _ := parse(a)
+			top, err := m(x)
+			if err != nil {
+				top = []byte("marshal-error")
+			}
+			return libField(m(struct{ V T }{x})), top
+		}}
 }
 
 func fmtBytes(b []byte) string {
@@ -119,153 +179,33 @@ func parseU64(s string) (uint64, bool) {
 	return v, err == nil
 }
 
+func showI64[T ~int64](v T) string  { return strconv.FormatInt(int64(v), 10) }
+func showU64[T ~uint64](v T) string { return strconv.FormatUint(uint64(v), 10) }
+
 var jsTypes = []jsType{
-	{name: "i64", goName: "JsInt64",
-		direct: func(b []byte) (string, error) {
-			var v tex.JsInt64
-			err := v.UnmarshalJSON(b)
-			return strconv.FormatInt(int64(v), 10), err
-		},
-		viaLib: func(um func([]byte, interface{}) error, doc []byte) (string, error) {
-			var s struct{ V tex.JsInt64 }
-			err := um(doc, &s)
-			return strconv.FormatInt(int64(s.V), 10), err
-		},
-		marshal: func(a string) ([]byte, []byte, bool) {
-			x, ok := parseI64(a)
-			if !ok {
-				return nil, nil, false
-			}
-			d, _ := tex.JsInt64(x).MarshalJSON()
-			return d, libField(json.Marshal(struct{ V tex.JsInt64 }{tex.JsInt64(x)})), true
-		}},
-	{name: "u64", goName: "JsUInt64",
-		direct: func(b []byte) (string, error) {
-			var v tex.JsUInt64
-			err := v.UnmarshalJSON(b)
-			return strconv.FormatUint(uint64(v), 10), err
-		},
-		viaLib: func(um func([]byte, interface{}) error, doc []byte) (string, error) {
-			var s struct{ V tex.JsUInt64 }
-			err := um(doc, &s)
-			return strconv.FormatUint(uint64(s.V), 10), err
-		},
-		marshal: func(a string) ([]byte, []byte, bool) {
-			x, ok := parseU64(a)
-			if !ok {
-				return nil, nil, false
-			}
-			d, _ := tex.JsUInt64(x).MarshalJSON()
-			return d, libField(json.Marshal(struct{ V tex.JsUInt64 }{tex.JsUInt64(x)})), true
-		}},
-	{name: "utime", goName: "JsUnixTime",
-		direct: func(b []byte) (string, error) {
-			var v tex.JsUnixTime
-			err := v.UnmarshalJSON(b)
-			return strconv.FormatInt(time.Time(v).Unix(), 10), err
-		},
-		viaLib: func(um func([]byte, interface{}) error, doc []byte) (string, error) {
-			var s struct{ V tex.JsUnixTime }
-			err := um(doc, &s)
-			return strconv.FormatInt(time.Time(s.V).Unix(), 10), err
-		},
-		marshal: func(a string) ([]byte, []byte, bool) {
-			x, ok := parseI64(a)
-			if !ok {
-				return nil, nil, false
-			}
-			v := tex.JsUnixTime(time.Unix(x, 0))
-			d, _ := v.MarshalJSON()
-			return d, libField(json.Marshal(struct{ V tex.JsUnixTime }{v})), true
-		}},
-	{name: "ntime", goName: "JsNanoTime",
-		direct: func(b []byte) (string, error) {
-			var v tex.JsNanoTime
-			err := v.UnmarshalJSON(b)
-			return strconv.FormatInt(time.Time(v).UnixNano(), 10), err
-		},
-		viaLib: func(um func([]byte, interface{}) error, doc []byte) (string, error) {
-			var s struct{ V tex.JsNanoTime }
-			err := um(doc, &s)
-			return strconv.FormatInt(time.Time(s.V).UnixNano(), 10), err
-		},
-		marshal: func(a string) ([]byte, []byte, bool) {
-			x, ok := parseI64(a)
-			if !ok {
-				return nil, nil, false
-			}
-			v := tex.JsNanoTime(time.Unix(0, x))
-			d, _ := v.MarshalJSON()
-			return d, libField(json.Marshal(struct{ V tex.JsNanoTime }{v})), true
-		}},
-	{name: "stamp", goName: "UnixStamp",
-		direct: func(b []byte) (string, error) {
-			var v tex.UnixStamp
-			err := v.UnmarshalJSON(b)
-			return strconv.FormatInt(int64(v), 10), err
-		},
-		viaLib: func(um func([]byte, interface{}) error, doc []byte) (string, error) {
-			var s struct{ V tex.UnixStamp }
-			err := um(doc, &s)
-			return strconv.FormatInt(int64(s.V), 10), err
-		},
-		marshal: func(a string) ([]byte, []byte, bool) {
-			x, ok := parseI64(a)
-			if !ok {
-				return nil, nil, false
-			}
-			d, _ := tex.UnixStamp(x).MarshalJSON()
-			return d, libField(json.Marshal(struct{ V tex.UnixStamp }{tex.UnixStamp(x)})), true
-		}},
-	{name: "dur", goName: "Duration",
-		direct: func(b []byte) (string, error) {
-			var v tex.Duration
-			err := v.UnmarshalJSON(b)
-			return strconv.FormatInt(int64(v), 10), err
-		},
-		viaLib: func(um func([]byte, interface{}) error, doc []byte) (string, error) {
-			var s struct{ V tex.Duration }
-			err := um(doc, &s)
-			return strconv.FormatInt(int64(s.V), 10), err
-		},
-		marshal: func(a string) ([]byte, []byte, bool) {
-			x, ok := parseI64(a)
-			if !ok {
-				return nil, nil, false
-			}
-			d, _ := tex.Duration(x).MarshalJSON()
-			enc, err := json.Marshal(struct{ V tex.Duration }{tex.Duration(x)})
-			// encoding/json escapes nothing in a duration text, but it re-validates it
-			return d, libField(enc, err), true
-		}},
-	{name: "byte", goName: "JsByte",
-		direct: func(b []byte) (string, error) {
-			var v tex.JsByte
-			err := v.UnmarshalJSON(b)
-			if err == nil {
-				holdDec("JsByte.UnmarshalJSON", string(b), v)
-			}
-			return fmtBytes(v), err
-		},
-		viaLib: func(um func([]byte, interface{}) error, doc []byte) (string, error) {
-			var s struct{ V tex.JsByte }
-			err := um(doc, &s)
-			return fmtBytes(s.V), err
-		},
-		marshal: func(a string) ([]byte, []byte, bool) {
+	mkType("i64", "JsInt64", showI64[tex.JsInt64], func(a string) (tex.JsInt64, bool) { x, ok := parseI64(a); return tex.JsInt64(x), ok }, nil),
+	mkType("u64", "JsUInt64", showU64[tex.JsUInt64], func(a string) (tex.JsUInt64, bool) { x, ok := parseU64(a); return tex.JsUInt64(x), ok }, nil),
+	mkType("utime", "JsUnixTime", func(v tex.JsUnixTime) string { return strconv.FormatInt(time.Time(v).Unix(), 10) },
+		func(a string) (tex.JsUnixTime, bool) { x, ok := parseI64(a); return tex.JsUnixTime(time.Unix(x, 0)), ok }, nil),
+	mkType("ntime", "JsNanoTime", func(v tex.JsNanoTime) string { return strconv.FormatInt(time.Time(v).UnixNano(), 10) },
+		func(a string) (tex.JsNanoTime, bool) { x, ok := parseI64(a); return tex.JsNanoTime(time.Unix(0, x)), ok }, nil),
+	mkType("stamp", "UnixStamp", showI64[tex.UnixStamp], func(a string) (tex.UnixStamp, bool) { x, ok := parseI64(a); return tex.UnixStamp(x), ok }, nil),
+	mkType("dur", "Duration", showI64[tex.Duration], func(a string) (tex.Duration, bool) { x, ok := parseI64(a); return tex.Duration(x), ok }, nil),
+	mkType("byte", "JsByte", func(v tex.JsByte) string { return fmtBytes(v) },
+		func(a string) (tex.JsByte, bool) {
 			var l []byte
 			if a != "-" {
 				for _, p := range strings.Split(a, ",") {
 					x, ok := parseU64(p)
 					if !ok || x > 255 {
-						return nil, nil, false
+						return nil, false
 					}
 					l = append(l, byte(x))
 				}
 			}
-			d, _ := tex.JsByte(l).MarshalJSON()
-			return d, libField(json.Marshal(struct{ V tex.JsByte }{tex.JsByte(l)})), true
-		}},
+			return tex.JsByte(l), true
+		},
+		func(v tex.JsByte, b []byte) { holdDec("JsByte.UnmarshalJSON", string(b), v) }),
 }
 
 func jsTypeOf(name string) *jsType {
@@ -343,14 +283,21 @@ func (p *probe) UnmarshalJSON(b []byte) error {
 	return nil
 }
 
-// delivers: does the library call UnmarshalJSON with exactly tok for the document {"V":tok}? (jsoniter, for one,
-// rejects the number 1e400 itself; such a token never reaches the wrapper through that library.)
-func delivers(um func([]byte, interface{}) error, doc, tok []byte) (ok bool) {
+// delivers: does the library call UnmarshalJSON with exactly tok for the document {"V":tok} (field) / tok (top level)?
+// (jsoniter, for one, rejects the number 1e400 itself; such a token never reaches the wrapper through that library.)
+func delivers(um unmarshalFn, doc, tok []byte, top bool) (ok bool) {
 	defer func() {
 		if recover() != nil {
 			ok = false
 		}
 	}()
+	if top {
+		var p probe
+		if err := um(tok, &p); err != nil {
+			return false
+		}
+		return p.called && bytes.Equal(p.raw, tok)
+	}
 	var s struct{ V probe }
 	if err := um(doc, &s); err != nil {
 		return false
@@ -358,7 +305,8 @@ func delivers(um func([]byte, interface{}) error, doc, tok []byte) (ok bool) {
 	return s.V.called && bytes.Equal(s.V.raw, tok)
 }
 
-// decodeAll decodes tok directly and — when a library delivers it — through encoding/json and jsoniter; all must agree.
+// decodeAll decodes tok directly and — when a library delivers it — through encoding/json and both jsoniter
+// configurations, as a struct field and as the top-level value; all must agree with the direct call.
 func decodeAll(t *jsType, tok []byte) string {
 	directText := ""
 	d := safely(func() (string, error) {
@@ -368,12 +316,15 @@ func decodeAll(t *jsType, tok []byte) string {
 		}
 		return v, err
 	})
+	if !libToken(tok) {
+		return d
+	}
 	// a library may wrap the error of UnmarshalJSON in text of its own: an error that carries the direct error's
 	// text verbatim is the same error, however the wrapper is worded
-	viaLib := func(um func([]byte, interface{}) error, doc []byte) string {
+	via := func(f func() (string, error)) string {
 		wrapped := false
 		r := safely(func() (string, error) {
-			v, err := t.viaLib(um, doc)
+			v, err := f()
 			wrapped = err != nil && directText != "" && strings.Contains(err.Error(), directText)
 			return v, err
 		})
@@ -382,20 +333,55 @@ func decodeAll(t *jsType, tok []byte) string {
 		}
 		return r
 	}
-	if libToken(tok) {
-		doc := append(append([]byte(`{"V":`), tok...), '}')
-		j, it := d, d
-		if delivers(json.Unmarshal, doc, tok) {
-			j = viaLib(json.Unmarshal, doc)
-		}
-		if delivers(jsoniter.ConfigCompatibleWithStandardLibrary.Unmarshal, doc, tok) {
-			it = viaLib(jsoniter.ConfigCompatibleWithStandardLibrary.Unmarshal, doc)
-		}
-		if j != d || it != d {
-			return fmt.Sprintf("path-mismatch direct=%q encoding/json=%q jsoniter=%q", d, j, it)
+	doc := append(append([]byte(`{"V":`), tok...), '}')
+	for _, lib := range jsonLibs {
+		for _, top := range []bool{false, true} {
+			if !delivers(lib.unmarshal, doc, tok, top) {
+				continue
+			}
+			um := lib.unmarshal
+			r := via(func() (string, error) {
+				if top {
+					return t.viaTop(um, append([]byte{}, tok...))
+				}
+				return t.viaLib(um, doc)
+			})
+			if r != d {
+				where := "field"
+				if top {
+					where = "top-level"
+				}
+				kind := "path-mismatch"
+				if lib.jsoniter {
+					kind = "jsoniter-differs"
+				}
+				return fmt.Sprintf("%s direct=%q %s(%s)=%q", kind, d, lib.name, where, r)
+			}
 		}
 	}
 	return d
+}
+
+// encodeAll: the value's text from MarshalJSON, and — "" when they all agree — the first library output that differs.
+func encodeAll(t *jsType, arg string) (direct []byte, mismatch string, ok bool) {
+	direct, ok = t.marshal(arg)
+	if !ok {
+		return nil, "", false
+	}
+	for _, lib := range jsonLibs {
+		field, top := t.libEnc(lib.marshal, arg)
+		kind := "marshal-path-mismatch"
+		if lib.jsoniter {
+			kind = "jsoniter-differs"
+		}
+		if !bytes.Equal(field, direct) {
+			return direct, fmt.Sprintf("%s direct=%q %s(field)=%q", kind, direct, lib.name, field), true
+		}
+		if !bytes.Equal(top, direct) {
+			return direct, fmt.Sprintf("%s direct=%q %s(top-level)=%q", kind, direct, lib.name, top), true
+		}
+	}
+	return direct, "", true
 }
 
 // ---------------------------------------------------------------- what a token denotes (independent reference, math/big)
@@ -460,6 +446,9 @@ func monitorDecode(t *jsType, tok []byte, res string) []corr.Hit {
 	if !strings.HasPrefix(res, "ok ") {
 		if strings.HasPrefix(res, "path-mismatch") {
 			return []corr.Hit{{Key: "C20:" + t.goName + ".UnmarshalJSON:json-libraries-disagree", What: fmt.Sprintf("token %q: %s", tok, res)}}
+		}
+		if strings.HasPrefix(res, "jsoniter-differs") {
+			return []corr.Hit{{Key: "C20:" + t.goName + ":jsoniter-differs", What: fmt.Sprintf("token %q decoded through jsoniter does not give what %s.UnmarshalJSON gives: %s", tok, t.goName, res)}}
 		}
 		return nil
 	}
@@ -633,6 +622,11 @@ func runLine(line string) (string, []corr.Hit) {
 			return "bad-op", nil
 		}
 		return runTimeRt(op, f[1], f[2], f[3])
+	case op == "tostr":
+		if len(f) != 3 {
+			return "bad-op", nil
+		}
+		return runToStr(f[1], f[2])
 	case op == "dur.toml":
 		if len(f) != 2 {
 			return "bad-op", nil
@@ -669,16 +663,23 @@ func runLine(line string) (string, []corr.Hit) {
 		res := decodeAll(t, tok)
 		return res, monitorDecode(t, tok, res)
 	case "rt":
-		d, lib, ok := t.marshal(f[1])
+		d, mismatch, ok := encodeAll(t, f[1])
 		if !ok {
 			return "bad-op", nil
 		}
-		if !bytes.Equal(d, lib) {
-			return fmt.Sprintf("marshal-path-mismatch direct=%q encoding/json=%q", d, lib), nil
+		if mismatch != "" {
+			var hits []corr.Hit
+			if strings.HasPrefix(mismatch, "jsoniter-differs") {
+				hits = append(hits, corr.Hit{Key: "C20:" + t.goName + ":jsoniter-differs", What: fmt.Sprintf("value %s encoded through jsoniter does not give what %s.MarshalJSON gives: %s", f[1], t.goName, mismatch)})
+			}
+			return mismatch, hits
 		}
 		hold(t.goName+".MarshalJSON", f[1], d)
 		res := decodeAll(t, d)
 		var hits []corr.Hit
+		if strings.HasPrefix(res, "jsoniter-differs") {
+			hits = append(hits, corr.Hit{Key: "C20:" + t.goName + ":jsoniter-differs", What: fmt.Sprintf("value %s marshals to %s: %s", f[1], d, res)})
+		}
 		want := "ok " + f[1]
 		if t.name == "byte" {
 			want = "ok [" + strings.ReplaceAll(f[1], "-", "") + "]"
@@ -732,6 +733,58 @@ func runLine(line string) (string, []corr.Hit) {
 		return out, hits
 	}
 	return "bad-op", nil
+}
+
+// runToStr: tex.ToString, MapVal2String and ToStringList on a value of an integer kind — the text must denote the
+// value and (for the wrapper kinds) decode back through the wrapper.
+func runToStr(kind, v string) (string, []corr.Hit) {
+	var val interface{}
+	want := new(big.Int)
+	switch kind {
+	case "u64w", "u64", "uint":
+		x, ok := parseU64(v)
+		if !ok {
+			return "bad-op", nil
+		}
+		want.SetUint64(x)
+		val = map[string]interface{}{"u64w": tex.JsUInt64(x), "u64": x, "uint": uint(x)}[kind]
+	case "i64w", "i64", "int", "dur", "tdur":
+		x, ok := parseI64(v)
+		if !ok {
+			return "bad-op", nil
+		}
+		want.SetInt64(x)
+		val = map[string]interface{}{"i64w": tex.JsInt64(x), "i64": x, "int": int(x), "dur": tex.Duration(x), "tdur": time.Duration(x)}[kind]
+	default:
+		return "bad-op", nil
+	}
+	var a, b, c string
+	res := safely(func() (string, error) {
+		a = tex.ToString(val)
+		b = tex.MapVal2String(map[string]interface{}{"k": val}, "k")
+		l := tex.ToStringList([]interface{}{val})
+		if len(l) == 1 {
+			c = l[0]
+		}
+		return "", nil
+	})
+	if res == "panic" {
+		return "panic", nil
+	}
+	if a != b || a != c {
+		return fmt.Sprintf("path-mismatch ToString=%q MapVal2String=%q ToStringList=%q", a, b, c), nil
+	}
+	var hits []corr.Hit
+	name := fmt.Sprintf("%T", val)
+	if d, ok := denoteCore([]byte(a)); !ok || d.Cmp(want) != 0 {
+		hits = append(hits, corr.Hit{Key: "C20:ToString:text-denotes-different-number", What: fmt.Sprintf("tex.ToString(%s(%s)) = %q", name, v, a)})
+	} else if kind == "i64w" || kind == "u64w" {
+		t := jsTypeOf(kind[:3])
+		if back := decodeAll(t, []byte(`"`+a+`"`)); back != "ok "+v {
+			hits = append(hits, corr.Hit{Key: "C20:ToString:text-does-not-decode-back", What: fmt.Sprintf("tex.ToString(%s(%s)) = %q, which %s.UnmarshalJSON reads as `%s`", name, v, a, t.goName, back)})
+		}
+	}
+	return tokArg([]byte(a)), hits
 }
 
 // runDurToml: Duration.UnmarshalTOML on a string (t:<tok>) or on a value of another kind (k:<kind>).
